@@ -51,15 +51,80 @@ def run(rep):
         rep.sample({"rows": o["shapes"], "outcome": o["res"]["status"], "message": o["res"].get("message"), "trace_events": len(o["trace"])})
     _rp.run_canaries(rep, PROP, sub, acc)
     part_histories(rep)
+    part_loops(rep)
     _rp.corpus_part(rep, PROP)
     if rep.tier == "thorough":
         _rp.suite_part(rep, PROP)
+
+
+LOOP_TCFG = "SPECIFICATION TSpec\nCONSTANT MaxChoices = 0\nCONSTANT MaxRows = 0\nCONSTRAINT Accepted\nCHECK_DEADLOCK FALSE\n"
+
+
+def part_loops(rep):
+    """Loop.tla: forms with the legacy loop construct are outside RowParser's fragment; what C02 demands of the emitted document is
+    decided on the document alone (Trace_RowParser "free" event); the expansion itself is compared with the transcription (drift)."""
+    import copy
+
+    from harness import conv, loopgen
+
+    cfg = corpus._cfg("Gen_Loop.cfg", "SPECIFICATION LSpec\nCONSTANT MaxChoices = 3\nCONSTANT MaxRows = 2\nINVARIANT CopiesAreDistinct\nINVARIANT NoneIsSkipped\nCONSTRAINT Emit\nCHECK_DEADLOCK FALSE\n")
+    cases, r = tlc.generate("Gen_Loop", cfg, tag="genloop", timeout=900)
+    rep.add_mc(r, "Gen_Loop: every loop case (<= 3 choices with or without a 'none' choice, <= 2 template rows over 6 placeholder texts, loop at top / in a group / in a repeat, "
+                  "group inside the template, translated or not): copies are distinct, 'none' is skipped")
+    if rep.tier == "quick":
+        cases = corpus.pick(cases, 900, rep.seed)
+    outs = conv.map_cases(loopgen.run_case, cases, chunksize=32)
+    for o in outs:
+        if o.get("status") == "harness_error":
+            raise tlc.MachineryError(o["message"] + "\n" + o.get("tb", ""))
+    nok = sum(1 for o in outs if o["status"] == "ok")
+    rep.bounds["loops"] = {"cases": len(outs), "converted": nok}
+    if nok * 4 < len(outs) and not rep.violations:
+        raise tlc.MachineryError(f"vacuity: only {nok} of {len(outs)} loop forms convert")
+    acc, info = tlc.validate_traces(_rp.TRACE_MOD, _rp.TRACE_CFG, [o["free"] for o in outs], shards=8, env={"PROP": PROP, "VERIF_SRC": "gen"}, tag="loopfree")
+    rep.traces_validated += len(acc)
+    acc2, info2 = tlc.validate_traces("Trace_Loop", corpus._cfg("Trace_Loop.cfg", LOOP_TCFG), [o["loop"] for o in outs], shards=8, tag="trloop")
+    rep.extra.setdefault("trace_runs", []).append({"source": "loop forms: closure of the emitted document (free event) and the expansion against Loop.tla", "traces": len(outs),
+                                                   "accepted": len(acc), "drift_from_transcription": len(info2.get("drift", [])), "wall_s": round(info["wall"] + info2["wall"], 1)})
+    if info2.get("drift"):
+        rep.drift.append(f"{len(info2['drift'])} loop forms expand differently from Loop.tla, e.g. {outs[info2['drift'][0]]['job']}")
+    for i, o in enumerate(outs):
+        rep.case({"loop": {k: o["job"][k] for k in ("choices", "where", "grp", "translated")}, "rows": o["job"]["rows"]}, nontrivial=o["status"] == "ok")
+        bad = None
+        if i not in acc:
+            bad = info["progress"].get(i, (0, "unexplained_event"))[1]
+        elif i not in acc2:
+            bad = info2["progress"].get(i, (0, "unexplained_event"))[1]
+        if bad:
+            rep.violation(f"{PROP}:loop:{bad}", f"clause {bad}; loop case {o['job']} status={o['status']} {o['loop'][0]['real'].get('message')}"[:600], {"loop": True, "job": o["job"], "clause": bad})
+    base = next(o for i, o in enumerate(outs) if i in acc and o["status"] == "ok" and len(o["free"][1]["obs"]["binds"]) >= 3)
+    t = copy.deepcopy(base["free"]); t[1]["obs"]["binds"].append(copy.deepcopy(t[1]["obs"]["binds"][0]))
+    t2 = copy.deepcopy(base["free"]); t2[1]["obs"]["body"][-1]["ref"] = t2[1]["obs"]["body"][-1]["ref"][:-1] + ["nowhere"]
+    a, _ = tlc.validate_traces(_rp.TRACE_MOD, _rp.TRACE_CFG, [t, t2, base["free"]], shards=1, env={"PROP": PROP, "VERIF_SRC": "gen"}, tag="canloop")
+    if 0 in a or 1 in a or 2 not in a:
+        raise tlc.MachineryError("loop canary failure")
+    rep.extra.setdefault("canaries_rejected", []).extend(["loop_copy_bound_twice", "loop_copy_control_names_no_node"])
+
+
+def replay_loop(rep, c):
+    from harness import loopgen
+
+    o = loopgen.run_case(c["job"])
+    acc, info = tlc.validate_traces(_rp.TRACE_MOD, _rp.TRACE_CFG, [o["free"]], shards=1, env={"PROP": PROP, "VERIF_SRC": "gen"}, tag="replay")
+    acc2, info2 = tlc.validate_traces("Trace_Loop", corpus._cfg("Trace_Loop.cfg", LOOP_TCFG), [o["loop"]], shards=1, tag="replay2")
+    rep.traces_validated += len(acc)
+    rep.case({"loop": c["job"]})
+    if 0 not in acc or 0 not in acc2:
+        cl = (info if 0 not in acc else info2)["progress"].get(0, (0, "?"))[1]
+        rep.violation(f"{PROP}:loop:{cl}", "replay", c)
 
 
 def replay(rep, case):
     c = case["case"]
     if "history" in c:
         return replay_history(rep, PROP, c)
+    if c.get("loop"):
+        return replay_loop(rep, c)
     outs = corpus.run_forms([{"shapes": c["shapes"], "seed": c["seed"], "feat": c["feat"], "fmt": c["fmt"]}])
     sub, acc, rejected = _rp.validate(rep, PROP, outs, "replay")
     for o, l, clause in rejected:
